@@ -279,7 +279,7 @@ CHECKS = {
         ],
         "parts": [
             {"name": "rapid", "pkg": "transport/mux", "run": "^TestVF_C10_Rapid$",
-             "checks": {"quick": 2500, "thorough": 30000}, "shards": {"quick": 4, "thorough": 16}},
+             "checks": {"quick": 2500, "thorough": 10000}, "shards": {"quick": 4, "thorough": 16}},
         ],
     },
     "C11": {
